@@ -871,8 +871,8 @@ func canonicalScalars(w *World) []string {
 	set := map[string]bool{}
 	norm := map[string]string{}
 	for _, st := range normalisingSwitches(w) {
-		if strings.HasSuffix(st.fn, "getBasicType") {
-			norm = st.cases
+		if len(norm) == 0 || len(st.cases) > len(norm) {
+			norm = st.cases // the widest table
 		}
 	}
 	for _, lits := range w.G4.ScalarTokens() {
